@@ -14,6 +14,7 @@ claimed={
 "C06":("A","exploration","Same simulator; at every job start no earlier-accepted job of the pipeline may still be waiting (definition unchanged)."),
 "C07":("A","exploration","Same simulator on the fake clock: start - accept >= delay at every start; settled-state eligibility; replace bursts converge to the newest job."),
 "C08":("A","exploration","Same simulator with forced and seeded task failures; failure propagation and final verdict (ReadJob and /job/detail JSON) checked against the stub history."),
+"C09":("B","fault_enumeration","B1: the real JsonDataStore on real files with savers and loaders parked between every file operation, seeded interleavings, crash copies with torn temp files and injected write errors; after every step and crash a fresh Load must return exactly the snapshot most recently renamed into place. B2: the real process under strace with SIGKILL injected at every syscall of fixed save sequences and ENOSPC at every write, a loader process judging what is left behind - exhaustive over syscall boundaries for those sequences, and independent of the hook points."),
 "C10":("A","exploration","Same simulator with the persist loop live on the real JsonDataStore; crash-and-restart is a scheduling choice at every step (also inside a save); after each restart every job must be terminal, the job set must equal the persisted one, and every finished job must be reported field for field (flags, times, tasks, variables with float bit patterns, user, last error) as the dead world reported it."),
 "C11":("A","exploration","Same simulator; Shutdown (graceful/forced, deadlines on the fake clock) begun in any state with concurrent clients; at the step Shutdown returns: no unfinished job, no executing task, last successfully saved snapshot equals the reported state; graceful lets running jobs finish, forced cancels them; persist liveness evaluated after three persist pauses in settled states."),
 "C12":("A","exploration","Same simulator with the real FileOutputStore; at every SaveToStore step the removed set is checked against retention_count / retention_period / definition removal, the snapshot handed to the store against the API view of the same instant, and the log directory listing before/after."),
@@ -40,6 +41,7 @@ log=subprocess.check_output(['git','-C','/repo','log','--format=%h %s']).decode(
 hooks=[l.split()[0] for l in log if 'simulation hook' in l or l.split(' ',1)[1].startswith('verif:')]
 fixes=[l.split()[0] for l in log if l.split(' ',1)[1].startswith('fix:')]
 engines=[{"name":"A","path":"sim/","serves_properties":[c for c in sorted(claimed) if claimed[c][0]=="A"],"kind_free_text":"whole-runner deterministic simulation: real PipelineRunner, taskctl scheduler, JsonDataStore, FileOutputStore, HTTP handler inside one testing/synctest bubble under a seeded cooperative scheduler; stub task runner; fault injection (task failures, store/log-store errors, id generation failure, stalls, clock jumps, crash-restart, reloads); minimising replay"}]
+engines.append({"name":"B","path":"sim/store_engine.go, cmd/verifctl/b2.go, cmd/storehelper","serves_properties":["C09"],"kind_free_text":"B1: in-bubble seeded interleaving of savers/loaders/crash points over the real JsonDataStore; B2: real helper process under strace fault injection (SIGKILL at every syscall, ENOSPC at every write)"})
 engines+=extra.get("_engines",[])
 man={"version":1,"setup_cmd":"./setup.sh",
  "hooks":{"guard":"verif","enable":"go1.26.8 test -tags verif (harness module /verif/go.mod replaces github.com/Flowpack/prunner with /repo)","baseline_off_cmd":"cd /repo && GOFLAGS=-mod=mod GOPROXY=off GOSUMDB=off go test -vet=off -count=1 ./...","source_commits":hooks,"add_only":True},
